@@ -27,7 +27,8 @@ THEOREMS = ['C01_flag_den', 'C01_expand_surfs_den', 'C01_expand_surfs_errors',
             'C01_to_t4_cell_sound', 'C01_convert_cellref', 'C01_cells',
             'C01_remove_empty_sound', 'C01_prune_sound', 'C01_partition',
             'C01_partition_points', 'C01_print_read', 'C01_partition_file',
-            'C01_partition_file_points']
+            'C01_partition_file_points', 'C01_partition_file_points_linked',
+            'C01_cells_linked', 'C01_partition_linked']
 TRUSTED = [
     'hand-written model coq/C01/Model.v (modelled, tied by execution only)',
     'surfaces are abstract ids: what a T4 surface id means geometrically, and '
@@ -110,9 +111,11 @@ def classify(case, obs, fails):
 def run_pipeline_stream(res, rng, cases, label, chunk=150):
     '''Tie + oracle on a list of abstract cases.'''
     coq_cases, metas = [], []
-    for case in cases:
+    import c01_cov
+    for num, case in enumerate(cases):
         irng = random.Random(rng.random())
-        obs, _, _ = G.run_impl(case, irng)
+        with c01_cov.traced(num < 120):
+            obs, _, _ = G.run_impl(case, irng)
         sent = dict(case)
         sent['rn'] = G.effective_rn(case, obs)
         coq_cases.append(G.coq_case(sent, obs))
@@ -163,6 +166,30 @@ def run_pipeline_stream(res, rng, cases, label, chunk=150):
 
 
 def run(res, tier, seed, proofs_ok):
+    '''Ties and sweeps under a line-coverage tracer restricted to the anchored
+    functions: every reachable line must be executed by the generated inputs.'''
+    import c01_cov
+    cov = c01_cov.ACTIVE = c01_cov.LineCov(c01_cov.anchored_functions())
+    try:
+        _run(res, tier, seed, proofs_ok)
+    finally:
+        c01_cov.ACTIVE = None
+    total, missing = cov.missing(c01_cov.UNREACHABLE)
+    res.obligation('coverage: the generated inputs execute every reachable '
+                   f'line of the anchored functions ({total} lines of '
+                   f'{len(cov.codes)} code objects)', not missing,
+                   f'never executed: {missing[:6]}')
+    res.extra['anchored_lines'] = total
+    if missing:
+        res.violation('harness-error',
+                      'generated inputs no longer reach these lines of the '
+                      f'anchored code (strengthen the generators): {missing[:8]}',
+                      {'theorem_or_correspondence': 'coverage',
+                       'input': {'lines': [list(m) for m in missing[:20]]}},
+                      found_input=False)
+
+
+def _run(res, tier, seed, proofs_ok):
     rng = random.Random(seed)
     quick = tier == 'quick'
     res.rule = ('abstract cell tables (1-6 cells, trees of 1-40 leaves, arity '
@@ -180,7 +207,7 @@ def run(res, tier, seed, proofs_ok):
     D.run_witnesses(res, random.Random(seed + 1))
 
     # ---- 2/3. pipeline tie + oracle ----
-    n_valid = 500 if quick else 4000
+    n_valid = 500 if quick else 3000
     n_bad = 150 if quick else 1500
     n_part = 200 if quick else 2000
     cases = [G.gen_case(rng) for _ in range(n_valid)]
@@ -198,7 +225,7 @@ def run(res, tier, seed, proofs_ok):
 
 def run_exhaustive(res, rng):
     '''Every tree over 2 surfaces (4 literals) with <= 3 internal nodes of
-    arity <= 2 and with <= 2 internal nodes of arity <= 3; 8 000 random trees
+    arity <= 2 and with <= 2 internal nodes of arity <= 3; 5 000 random trees
     with exactly 4 internal nodes (the full set has > 4e5 members for arity 2).'''
     from collections import OrderedDict
     trees = []
@@ -208,7 +235,7 @@ def run_exhaustive(res, rng):
         trees += [t for t in G.all_trees(n, max_arity=3)
                   if any(len(k[1]) == 3 for k in walk(t))]
     res.count('exhaustive:enumerated', len(trees))
-    trees += [G.random_tree_n(rng, 4) for _ in range(8000)]
+    trees += [G.random_tree_n(rng, 4) for _ in range(5000)]
     cases = []
     for tree in trees:
         cells = OrderedDict()
